@@ -189,7 +189,7 @@ def clone(prog: Program, main=None, bodies=None, drop=()) -> Program:
     for s in prog.subs:
         if s.sid in new:
             new[s.sid].body = fix(bodies.get(s.sid, s.body))
-    return Program(prog.mode, fix(main if main is not None else prog.main), prog.vars, list(new.values()), prog.dvars)
+    return Program(prog.mode, fix(main if main is not None else prog.main), prog.vars, list(new.values()), prog.dvars, getattr(prog, 'mvars', []))
 
 
 # ----------------------------------------------------------------------------- recipe analyses
